@@ -21,7 +21,7 @@ from .sample import Sampler, mutants, with_trivia
 from .tools import CACHE, WORK, repo_hash, seed as get_seed, log, pmap, fresh_dir, rmtree, build_bins, Inconclusive
 from . import buckets
 
-VERSION = 12   # bump to invalidate cached campaigns when the machinery changes
+VERSION = 13   # bump to invalidate cached campaigns when the machinery changes
 
 PURE = dict(p_user_pred=0.0, p_assert=0.0)
 SIZES = {
@@ -303,6 +303,7 @@ PROBLEM_SIG = [
     (r"C01 walking the tree .* panics", "walk-panics"),
     (r"C01 concatenated", "text-differs"),
     (r"C01 Display", "display-panics"),
+    (r"C01 node \d+ is reached twice", "token-visited-twice"),
     (r"C02 node \d+ reachable twice", "node-reachable-twice"),
     (r"C02 child refs", "child-refs-not-increasing"),
     (r"C02 sibling extents overlap", "sibling-overlap"),
